@@ -295,7 +295,7 @@ def array_contract_path(
 
 
 def _find_tree_explicit(inputs, output, size_dict, optimize):
-    if isinstance(optimize[0], (str, int)):
+    if optimize and isinstance(optimize[0], (str, int)):
         return ContractionTree.from_path(
             inputs, output, size_dict, edge_path=optimize
         )
